@@ -25,7 +25,8 @@ ArgDefOf(a) == ByName(GDef.args, a)
 ArgType(a) == ArgDefOf(a).type
 
 \* ---------------------------------------------------------- value spaces
-JAtoms == { NullV, IntV("1"), IntV("over32"), FloatV("1.5"), StrV("abc"), StrV("RED"), BoolV(TRUE) }
+JAtoms == { NullV, IntV("1"), IntV("over32"), FloatV("1.5"), StrV("abc"), StrV("RED"), BoolV(TRUE),
+            StrV("4000000000"), StrV("1e10") }
 LAtoms == { IntV("1"), IntV("over32"), IntV("min32"), FloatV("1.5"), StrV("abc"), StrV("RED"), BoolV(TRUE),
             EnumV("RED"), EnumV("NOPE") }
 
